@@ -32,6 +32,11 @@ type Batch interface {
 	Reset()
 }
 
+// BatchDeleter is implemented by batches that can also queue deletions.
+type BatchDeleter interface {
+	Delete(key []byte) error
+}
+
 type Database interface {
 	Putter
 	Get(key []byte) ([]byte, error)
